@@ -25,6 +25,11 @@ func fU64(x uint64) uint64  { gotU64 = x; return x }
 func fMaxU() uint64         { return 18446744073709551615 }
 func fUintRes(x int) uint64 { return uint64(x) }
 
+var f32Pool = []float32{0.1, 1.0 / 3.0, 3.4028234663852886e38, 1.401298464324817e-45, 0.5, 1.5, -2.25, 16777217}
+
+func fF32r(k int) float32     { return f32Pool[k] }
+func fF64r(x float64) float64 { return x }
+
 // Calc is registered as a script class; its methods go through ReflectMethod.
 type Calc struct{}
 
@@ -47,7 +52,9 @@ func callMore(src string, binds ...sx.Bind) (sx.Obs, bool, bool) {
 		func() data.FuncStmt { return runtime.NewReflectFunction("go_u64", fU64) },
 		func() data.FuncStmt { return runtime.NewReflectFunction("go_maxu", fMaxU) },
 		func() data.FuncStmt { return runtime.NewReflectFunction("go_ures", fUintRes) },
-		func() data.FuncStmt { return runtime.NewReflectFunction("go_f32", fF32) },
+		func() data.FuncStmt { return runtime.NewReflectFunction("go_f32", fF32r) },
+		func() data.FuncStmt { return runtime.NewReflectFunction("go_f64", fF64r) },
+		func() data.FuncStmt { return runtime.NewReflectFunction("go_f32", fF32r) },
 	}
 	s := sx.Compile(src)
 	if s.Err != nil {
@@ -181,6 +188,28 @@ func H_reflect_method() {
 		symx.Assert(ok && !threw, "method arity 2: call completes")
 		if ok && !threw {
 			symx.Assert(gotI == x && gotMS == "q" && o.Kind == 'i' && o.I == x, "method arity 2: values in, value out")
+		}
+	}
+	symx.Reach("end")
+}
+
+// H_reflect_float_result: a float32 / float64 RESULT of a registered Go function reaches the script as
+// exactly the value Go returned (float32 widened to float64 without any re-rounding through text).
+func H_reflect_float_result() {
+	switch symx.Choose("which", 2) {
+	case 0:
+		k := symx.Choose("value", len(f32Pool))
+		o, threw, ok := callMore("emit(go_f32($a));", sx.Bind{Name: "a", V: sx.Int(k)})
+		symx.Assert(ok && !threw, "float32 result: call completes")
+		if ok && !threw {
+			symx.Assert(o.Kind == 'f' && o.F == float64(f32Pool[k]), "float32 result is exactly the value Go returned, widened")
+		}
+	case 1:
+		f := symx.Float64("f")
+		o, threw, ok := callMore("emit(go_f64($a));", sx.Bind{Name: "a", V: sx.Float(f)})
+		symx.Assert(ok && !threw, "float64 result: call completes")
+		if ok && !threw {
+			symx.Assert(o.Kind == 'f' && symx.SameFloat(o.F, f), "float64 result is exactly the value Go returned")
 		}
 	}
 	symx.Reach("end")
